@@ -22,6 +22,12 @@ let carg s =
   else if String.length s > 0 && s.[0] = '@' then CSelf (num (String.sub s 1 (String.length s - 1)))
   else CLit (bytes_of_hex s)
 let b s = s = "1"
+(* k1=v1,k2=v2 (hex) : the entries of a Hashtable<String,String> in iteration order *)
+let pairs s =
+  if s = "" then [] else
+  List.map (fun kv -> match String.split_on_char '=' kv with
+                      | [k; v] -> (bytes_of_hex k, bytes_of_hex v)
+                      | _ -> failwith ("bad pair " ^ kv)) (String.split_on_char ',' s)
 let nolimit = n_of_int 4294967295
 
 let rec parse_op (s : string) : op =
@@ -51,6 +57,9 @@ let rec parse_op (s : string) : op =
   | ["rc"; a; b'; m; f] -> OReplaceCh (num a, num b', num m, num f)
   | ["rs"; a; b'; m; f] -> OReplaceS (sarg a, sarg b', num m, num f)
   | ["uf"; x] -> OUnflatten (bytes_of_hex x)
+  | ["argd"; _; mn; _; txt] | ["argf"; _; mn; _; txt] -> OArgFloatText (bytes_of_hex txt, num mn)
+  | ["rm"; ps; m] -> OReplaceMulti (pairs ps, num m)
+  | ["wrm"; ps; m] -> OWithReplMulti (pairs ps, num m)
   | ["set"; i; ch] -> OSetAt (num i, num ch)
   | ["<<i"; z] -> OShiftInt (z_of_int (int_of_string z))
   | ["<<b"; x] -> OShiftBool (b x)
